@@ -123,6 +123,7 @@ func (w *World) handleRuntime(t *core.Task, r *core.Req) core.Resp {
 		st.answered = true
 	}
 	state, ns, name := w.runtimeState(id)
+	w.S.Logf("inspect %-24s %s -> %s", t.Name, short(id), state)
 	if containerd {
 		cs := criState(state)
 		if cs == "absent" {
@@ -278,6 +279,12 @@ func short(id string) string {
 
 // onFSMutate observes applied file-system mutations.
 func (w *World) onFSMutate(t *core.Task, op, p string) {
+	switch op {
+	case "create":
+		w.halfWritten[p] = true
+	case "write", "remove":
+		delete(w.halfWritten, p)
+	}
 	if t == nil || t.Tag != "gc" || op != "remove" || !w.armed("C17") {
 		return
 	}
